@@ -136,7 +136,7 @@ def child_produce(item):
 class C20(HistoryProperty):
     ID = "C20"
     LEVEL = "exploration"
-    TECHNIQUE = "deterministic simulation of seeded histories with a restart operation at an arbitrary point: the program (generated importable module) is pickled with a seed-chosen protocol and reloaded in-process or in a freshly exec'd interpreter with a seed-chosen PYTHONHASHSEED, the history continues on both and outcomes are compared op by op"
+    TECHNIQUE = "deterministic simulation of seeded histories with a restart operation at an arbitrary point: the program (generated importable module) is pickled with a seed-chosen protocol and reloaded in-process or in a freshly exec'd interpreter with a seed-chosen PYTHONHASHSEED (in half of those runs the pickle is also WRITTEN by a fresh interpreter that replayed the history so far), the history continues on both and outcomes are compared op by op"
     LEVEL_TEXT = (
         "Seeded search over (program module, history, restart point, pickle protocol 0-5, in-process | fresh interpreter). Programs are "
         "generated as source text of an importable module whose callables are module-level functions (explicit dataset(f) form, and the "
